@@ -240,13 +240,23 @@ def build(case: dict, sched: accsched.AccessSched):
 
     observations: list = []
 
+    shared_ctx: list = []
+
     def inference():
         for i, op in enumerate(case["iops"]):
             sched.emit("op_begin", i, op)
             if op == "infer":
                 seen = im.infer(i)
             else:
-                with im.unwrap() as m:
+                if case.get("reuse_ctx"):
+                    # one context manager object, taken once and entered again for every later unwrap
+                    # (`ctx = model.unwrap()` kept by the agent): each entry is an unwrap of its own
+                    if not shared_ctx:
+                        shared_ctx.append(im.unwrap())
+                    cm = shared_ctx[0]
+                else:
+                    cm = im.unwrap()
+                with cm as m:
                     seen = use(m, i)
             sched.emit("op_end", i, seen)
             observations.append(seen)
@@ -571,6 +581,8 @@ def suite_exhaustive(ctx: Ctx) -> SuiteResult:
         for tops in TOP_SEQS:
             base = {"kind": "conc", "nparams": 2, "iops": iops, "tops": tops}
             explore_case(base, ctx.driver, res, max_runs=None if thorough else 4000)
+            if iops == ["unwrap", "unwrap"]:
+                explore_case(dict(base, reuse_ctx=True), ctx.driver, res, max_runs=None if thorough else 4000)
             if len(res.violations) > 20 or len(res.disagreements) > 20:
                 return res
     if thorough:
@@ -621,7 +633,8 @@ def random_case(rng, big=False) -> dict:
     p_switch = rng.choice([0.05, 0.15, 0.4])
     return {"kind": "conc", "nparams": n, "iops": iops, "tops": tops, "gran": gran,
             "grads": rng.choice(["mixed", "mixed", "none"]),
-            "schedule": [1 if rng.random() < p_switch else 0 for _ in range(700)]}
+            "schedule": [1 if rng.random() < p_switch else 0 for _ in range(700)],
+            "reuse_ctx": rng.random() < 0.35}
 
 
 def suite_random(ctx: Ctx) -> SuiteResult:
